@@ -135,3 +135,41 @@ def _search_sites(repo):
     lean = ("def c10SearchSites : List (String × String × Nat) := ["
             + ", ".join(f"({lean_str(f)}, {lean_str(c)}, {n})" for f, c, n in rows) + "]")
     return rows, lean
+
+
+UTILS = "minijinja/src/utils.rs"
+
+
+@item("C10_UNESCAPE")
+def _unescape(repo):
+    """the escape table of utils::unescape (which character behind a backslash starts which kind of
+    escape) and the numbers its helpers use: characters taken by \\u / \\x, further octal digits,
+    radixes, the surrogate range"""
+    src = read(repo, UTILS)
+    body = fn_body(src, r"fn unescape\(mut self, s: &str\)[^{]*\{")
+    inner = fn_body(body, r"Some\(d\) => match d\s*\{")
+    arms = []
+    for pat, rhs in re.findall(r"(?m)^\s*((?:'(?:\\.|[^'])'(?:\.\.='(?:\\.|[^'])')?(?:\s*\|\s*)?)+|_)\s*=>\s*(\{.*?\n\s*\}|[^\n]*)", inner, re.S):
+        kind = ("u16" if "parse_u16" in rhs else "hex" if "parse_hex_byte" in rhs else "oct" if "parse_octal_byte" in rhs
+                else "char" if "push_char" in rhs else "?")
+        arms.append((re.sub(r"\s+", " ", pat.strip()), kind))
+    if len(arms) < 8 or any(k == "?" for _, k in arms):
+        raise KeyError("unescape arms")
+    u16 = fn_body(src, r"fn parse_u16\(&self, chars: &mut Chars\)[^{]*\{")
+    hexb = fn_body(src, r"fn parse_hex_byte\(&self, chars: &mut Chars\)[^{]*\{")
+    octb = fn_body(src, r"fn parse_octal_byte\(&self, first_digit: char, chars: &mut Chars\)[^{]*\{")
+    push = fn_body(src, r"fn push_u16\(&mut self, c: u16\)[^{]*\{")
+    nums = [
+        ("u16_take", int(re.search(r"\.take\((\d+)\)", u16).group(1))),
+        ("u16_radix", int(re.search(r"u16::from_str_radix\(&hexnum,\s*(\d+)\)", u16).group(1))),
+        ("hex_take", int(re.search(r"\.take\((\d+)\)", hexb).group(1))),
+        ("hex_radix", int(re.search(r"u8::from_str_radix\(&hexnum,\s*(\d+)\)", hexb).group(1))),
+        ("oct_more", int(re.search(r"for _ in 0\.\.(\d+)", octb).group(1))),
+        ("oct_radix", int(re.search(r"u8::from_str_radix\(&octal_str,\s*(\d+)\)", octb).group(1))),
+        ("surrogate_first", int(re.search(r"\(0x([0-9A-Fa-f]+)\.\.=0x([0-9A-Fa-f]+)\)\.contains", push).group(1), 16)),
+        ("surrogate_last", int(re.search(r"\(0x([0-9A-Fa-f]+)\.\.=0x([0-9A-Fa-f]+)\)\.contains", push).group(2), 16)),
+    ]
+    lean = ("def c10UnescapeArms : List (String × String) := ["
+            + ", ".join(f"({lean_str(p)}, {lean_str(k)})" for p, k in arms) + "]\n"
+            + "def c10UnescapeNums : List (String × Nat) := [" + ", ".join(f"({lean_str(n)}, {v})" for n, v in nums) + "]")
+    return {"arms": arms, "nums": nums}, lean
